@@ -187,3 +187,30 @@ Theorem DT_source_refines_spec_slices : forall m a, Rel m a -> mlen m + mlen m <
     exists m', Rel m' a' /\ agrees k m' [] [] d.
 Proof. exact DataTieSpec.slice_exact_source_refines_spec. Qed.
 Print Assumptions DT_source_refines_spec_slices.
+
+(** ** the access discipline of the translated functions
+
+    In the monad the source is translated into, reading or writing a buffer cell is defined only INSIDE THE WINDOW THE ITERATOR HOLDS
+    ([DataM.in_window]: [l_cached] cells from the local index on, cyclically - what an Acquire load of the successor's index has shown to be
+    its own and what it has not yet published away).  Every [DT_*] statement above says "the translated function runs" ([= Some ..]) for all
+    states the contract allows; with [DT_access_inside_window] each of them therefore also says that the function touches no cell before an
+    availability check has covered it ([DT_granted_covers]) and none after [advance] has handed it on.  A data read hoisted above the
+    index load, or a write sunk below the publication, is undefined in some state and its tie theorem no longer checks. *)
+Theorem DT_access_inside_window : forall E i d,
+  (forall v d', rd E (LBuf i) d = Some (v, d') -> i < length (d_slots d) /\ in_window d i = true) /\
+  (forall m v u d', store_mode E m (LBuf i) v d = Some (u, d') -> i < length (d_slots d) /\ in_window d i = true) /\
+  (forall v d', take_inner E (LBuf i) d = Some (v, d') -> i < length (d_slots d) /\ in_window d i = true) /\
+  (forall v d', inner_duplicate E (LBuf i) d = Some (v, d') -> i < length (d_slots d) /\ in_window d i = true) /\
+  (forall b d', check_zeroed E (LBuf i) d = Some (b, d') -> i < length (d_slots d) /\ in_window d i = true).
+Proof. exact access_inside_window. Qed.
+Print Assumptions DT_access_inside_window.
+
+Theorem DT_granted_covers : forall k n s s1, check k n s = (true, s1) -> n <= ca (it_of k s1).
+Proof. exact check_grants. Qed.
+Print Assumptions DT_granted_covers.
+
+(** nothing held, nothing touched: with a remembered availability of 0 even the cell at the local index is out of reach *)
+Theorem DT_nothing_held_nothing_read : forall E ix0 sl pubs evs nid out,
+  rd E (LBuf ix0) (mkD (mkL ix0 0) sl pubs evs nid out) = None.
+Proof. exact nothing_held_nothing_read. Qed.
+Print Assumptions DT_nothing_held_nothing_read.
